@@ -195,7 +195,27 @@ func goPolicyMatch(pol policy.Policy, n datamodel.Node) (out string) {
 		pm, _ := p.PartialMatch(n)
 		return bstr(m) + " " + bstr(pm)
 	}
+	printed := pol.String()
 	r1 := once(pol)
+	// a shorter view of the same statements (an overlapping slice) answers the same before and after the whole
+	// policy was matched, and the policy prints the same afterwards: matching does not reorder or rewrite anything
+	if len(pol) >= 2 {
+		head := pol[:len(pol)-1]
+		tail := pol[1:]
+		onceP := func(p policy.Policy) string {
+			m, _ := p.Match(n)
+			pm, _ := p.PartialMatch(n)
+			return bstr(m) + " " + bstr(pm)
+		}
+		h1, t1 := onceP(head), onceP(tail)
+		onceP(pol)
+		if h2, t2 := onceP(head), onceP(tail); h1 != h2 || t1 != t2 {
+			return "history: an overlapping policy slice answered " + h1 + "/" + t1 + " before and " + h2 + "/" + t2 + " after the whole policy was matched"
+		}
+	}
+	if after := pol.String(); after != printed {
+		return "history: the policy prints differently after it was matched"
+	}
 	// history: the same policy object is used on other data, then on this data again
 	func() {
 		defer func() { recover() }()
@@ -260,6 +280,7 @@ var polData = []string{
 	"m(6c:l())", "m(6c:l(m(61:i1),m(61:i2)))", "m(6c:l(m(61:i1),m()))", "m(61:n)", "n", "l(i1,i2)",
 	"m(61:d7ff8000000000001,62:d7ff0000000000000)", "m(61:i9007199254740991,62:i-9007199254740991)",
 	"m(61:d8000000000000000,62:d0000000000000000)", "m(6c:l(i2,s78,i1),73:s2a)",
+	"m(61:n,62:n,6e:n)", "m(6e:n,73:s78)", "m(6c:l(n,i1),6e:i1)", // explicit nulls under optional selectors
 }
 
 // boundary numbers: floats 0, -0, ±1, 1.5, ±MaxFloat64, ±SmallestNonzero, ±1e308, 2^53, 2^53+2, 0.1+0.2, 0.3,
@@ -271,11 +292,12 @@ var polNumbers = []string{
 	"d3fd3333333333334", "d3fd3333333333333", "d7ff8000000000001", "d7ff0000000000000", "dfff0000000000000",
 	"i0", "i1", "i-1", "i2", "i9007199254740991", "i-9007199254740991", "i2147483648", "i-2147483648",
 	"i9223372036854775807", "i-9223372036854775808",
+	"i9007199254740992", "i9007199254740993", "i-9007199254740992", "i-9007199254740993", "i9223372036854775806", // neighbours that a float64 cannot tell apart
 	"i9223372036854775808", "i18446744073709551615", // unsigned values beyond int64: AsInt fails on these (C09)
 }
 
 var polOps = []string{"eq", "gt", "ge", "lt", "le"}
-var polSels = []string{".a", ".b?", ".c", ".", ".c?"}
+var polSels = []string{".a", ".b?", ".c", ".", ".c?", ".zz.a?", ".s[]?", ".n?"}
 var polLits = []string{"i1", "i2", "s78", "d3ff8000000000000"}
 
 func polLeaves() []string {
